@@ -275,3 +275,77 @@ def impl_minimize(case):
         return {"cls": 2}
     return {"cls": 0, "opt": float(r["optimal_value"]).hex(), "cost": float(r["minimum_cost"]).hex(),
             "hist": [float(h).hex() for h in r["x_history"]]}
+
+
+# ------------------------------------------------------------------ size mismatches (C06)
+
+def impl_mismatch(case):
+    from bartiq import compile_routine, evaluate
+    from bartiq.errors import BartiqCompilationError
+    from hier import to_qref
+
+    flags = {"inexact": False}
+    try:
+        c = compile_routine(to_qref(case["routine"])).routine
+    except BaseException as e:  # noqa: BLE001
+        if type(e).__name__ == "CaseTimeout":
+            raise
+        return {"compile": {"ok": False, "exc": type(e).__name__, "msg": str(e)[:200]}, "evals": [], "params": []}
+    out = {"compile": {"ok": True, "tree": walk_compiled(c, flags)}, "params": list(c.input_params), "evals": []}
+    import random
+    rng = random.Random(case["seed"])
+    for _ in range(case["n_assign"]):
+        a = {p: rng.randint(1, 3) for p in c.input_params}
+        try:
+            evaluate(c, a)
+            cls = "ok"
+        except BartiqCompilationError:
+            cls = "BartiqCompilationError"
+        except BaseException as e:  # noqa: BLE001
+            if type(e).__name__ == "CaseTimeout":
+                raise
+            cls = type(e).__name__
+        out["evals"].append([a, cls])
+    return out
+
+
+# ------------------------------------------------------------------ robustness (C17)
+
+def _cls(e):
+    n = type(e).__name__
+    return n if n in ("BartiqCompilationError", "BartiqPreprocessingError") else "internal:" + n
+
+
+def impl_robust(case):
+    import random
+
+    from bartiq import compile_routine, evaluate
+    from hier import to_qref
+
+    try:
+        c = compile_routine(to_qref(case["routine"])).routine
+    except BaseException as e:  # noqa: BLE001
+        if type(e).__name__ == "CaseTimeout":
+            raise
+        return {"compile": _cls(e), "msg": str(e)[:200], "evals": []}
+    out = {"compile": "ok", "evals": []}
+    rng = random.Random(case["seed"])
+    params = list(c.input_params)
+    for mode in ("partial", "total", "total-zero"):
+        if mode == "partial":
+            keys = [p for p in params if rng.random() < 0.5]
+        else:
+            keys = params
+        a = {}
+        for p in keys:
+            base = p.rsplit(".", 1)[-1]
+            a[p] = 0 if (mode == "total-zero" and base in ("K", "R")) else rng.randint(1, 4)
+        try:
+            evaluate(c, a)
+            out["evals"].append("ok")
+        except BaseException as e:  # noqa: BLE001
+            if type(e).__name__ == "CaseTimeout":
+                raise
+            out["evals"].append(_cls(e))
+            out.setdefault("msgs", []).append(f"{mode}: {type(e).__name__}: {str(e)[:150]}")
+    return out
